@@ -14,7 +14,7 @@ import sys
 import warnings
 
 from checks import c07, c08
-from sim import canon, common, gen, iters, sched, seams
+from sim import canon, common, faults, gen, iters, sched, seams
 from sim import shrink as shr
 from sim.common import Stats
 
@@ -46,6 +46,8 @@ COMPONENTS = {
 
 POOL = None
 REFS = None
+REF_STEPS = {}  # call id -> logical steps of the call alone in a pristine process
+WARNERS = {}  # call id -> number of warnings the call emits when run alone
 STATEFUL = {}  # call id -> sites: calls that were seen to write process-global state when run alone
 _GUARD = None
 SMALL = 40_000
@@ -149,11 +151,30 @@ def build_pool():
     # the same object dumped twice, to two formats: the second file must be what that dump writes alone
     unsorted = {"kind": "corpus", "file": "h2o_sto3g.fchk", "mods": [{"op": "unsorted_centres"}]}
     plain = {"kind": "corpus", "file": "h2o_sto3g.fchk", "mods": []}
-    for obj_ in (unsorted, plain):
+    # (segmented basis sets as well: with generalized contractions the writers above work on a converted copy)
+    unsorted_seg = {"kind": "corpus", "file": "he2_ghost_psi4_1.0.molden", "mods": [{"op": "unsorted_centres"}]}
+    unsorted_wfn = {"kind": "corpus", "file": "h2o_sto3g.wfn", "mods": [{"op": "unsorted_centres"}]}
+    for obj_ in (unsorted, plain, unsorted_seg, unsorted_wfn):
         for first, second in ((("molden", "a.molden"), ("fchk", "b.fchk")), (("molden", "a.molden"), ("wfn", "b.wfn")),
                               (("wfn", "a.wfn"), ("molden", "b.molden")), (("fchk", "a.fchk"), ("wfx", "b.wfx")),
                               (("molekel", "a.mkl"), ("fchk", "b.fchk"))):
             pool.append({"op": "dump_one", "fmt": second[0], "out": second[1], "obj": obj_, "first": list(first), "allow_changes": True})
+    # damaged copies of the smallest corpus file of every format (lost / repeated lines, cut, changed count fields):
+    # loaders that pre-allocate arrays and are then given fewer data than announced must not hand out (or act on)
+    # whatever the memory held before
+    import random as _random
+
+    for mod in sorted(per_mod):
+        name = sorted(per_mod[mod])[0][1]
+        data = common.corpus_bytes(name)
+        drng = _random.Random(f"c16-damaged-{name}")
+        for kind in ("line_del", "field_overwrite", "crash_prefix"):
+            f = faults.random_fault(drng, data, kind)
+            if kind == "field_overwrite":
+                f["token"] = drng.choice(["1", "2", "3", "7"])
+                f["line"] = min(f["line"], drng.choice([0, 1, 2, 3, f["line"]]))
+            pool.append({"op": "load_one", "file": name, "fmt": "json_qcschema" if name.endswith(".json") else None,
+                         "derive": [{"kind": "fault", "fault": f}]})
     # a GAMESS punch file whose $HESS group is short but properly terminated
     pool.append({"op": "load_one", "file": "PCGamess_PUNCH.dat", "fmt": None,
                  "derive": [{"kind": "hess_short"}]})
@@ -212,14 +233,16 @@ def prepare_call(call):
         if "cut" in call:
             data = data[: call["cut"]]
         for d in call.get("derive", []):
+            if d["kind"] == "fault":
+                data = faults.apply(data, d["fault"])
             if d["kind"] == "hess_short":
                 # drop the second half of the lines between $HESS and its $END
                 lines = data.splitlines(keepends=True)
                 try:
-                    a = next(i for i, l in enumerate(lines) if l.strip().startswith(b"$HESS"))
+                    a = [i for i, l in enumerate(lines) if l.strip().startswith(b"$HESS")][-1]  # (the first one is the approximate Hessian, skipped by the loader)
                     b = next(i for i in range(a, len(lines)) if lines[i].strip() == b"$END")
                     data = b"".join(lines[: a + 2 + (b - a - 2) // 2] + lines[b:])
-                except StopIteration:
+                except (StopIteration, IndexError):
                     pass
         prep["data"] = data
     return prep
@@ -293,15 +316,19 @@ def _child_reference(call, wfd):
     try:
         warnings.simplefilter("ignore")
         prep = prepare_call(call)
+        warnings.resetwarnings()
+        warnings.simplefilter("always")  # (the outcome does not depend on it; the number of warnings is wanted)
+        shown = []
+        warnings.showwarning = lambda *a, **k: shown.append(1)
         sched.MONITOR.install(common.REPO)
         guard = canon.TableGuard()  # after the arguments were prepared: only the call itself is observed
         probe = sched.GlobalStoreProbe()
         disk = seams.SimDisk(log_events=False)
-        with seams.Installed(disk), sched.Steps(sched=probe):
+        with seams.Installed(disk), seams.MemPoison(0), sched.Steps(sched=probe) as st:
             rec = exec_call(call, prep, disk, "", reference=True)
         # does this call write process-global state of any kind (tables, memo caches, rebound names)?
         stateful = bool(probe.hits) or bool(guard.changed()) or bool(canon.clear_function_caches())
-        payload = pickle.dumps(("ok", (rec, stateful, sorted(probe.sites))))
+        payload = pickle.dumps(("ok", (rec, stateful, sorted(probe.sites), st.steps, len(shown))))
     except BaseException as exc:  # noqa: BLE001
         payload = pickle.dumps(("harness", f"{type(exc).__name__}: {exc}"))
     with os.fdopen(wfd, "wb") as fh:
@@ -341,6 +368,9 @@ def compute_refs(pool, maxpar=16):
             if kind != "ok":
                 raise RuntimeError(f"HARNESS: reference for call {call['id']} failed: {rec}")
             refs[call["id"]] = rec[0]
+            REF_STEPS[call["id"]] = rec[3]
+            if rec[4]:
+                WARNERS[call["id"]] = rec[4]
             if rec[1]:
                 STATEFUL[call["id"]] = rec[2]
     return refs
@@ -389,6 +419,34 @@ def _restore_warn_state(st):
     return changed
 
 
+def _budget(calls):
+    """Liveness: a run may take a few times the steps its calls take alone (first dump of a dump-after call, inner
+    calls of paused iterators and cold caches included), not more."""
+    total = 0
+    for c in calls:
+        total += REF_STEPS.get(c["id"], 200_000) * (2 if c.get("first") else 1)
+        if c.get("pause"):
+            total += REF_STEPS.get(c["pause"]["id"], 200_000)
+    return 4 * total + 50_000
+
+
+def _discard_warning(*args, **kwargs):
+    return None
+
+
+def _set_warning_environment(trace):
+    """The application's warning configuration is part of the environment, not of the arguments: 'ignore' (nothing is
+    recorded or re-issued by the API wrappers) or 'always' (every warning is shown; here: discarded by the sink)."""
+    warnings.resetwarnings()
+    warnings.simplefilter(trace.get("wfilter") or "ignore")
+    warnings.showwarning = _discard_warning
+
+
+def _memnote(trace):
+    m = trace.get("mem")
+    return f"; uninitialised memory (np.empty in iodata) held fill pattern {m} in this run, zeros in the pristine one" if m else ""
+
+
 def _cold_start():
     """Preparing the arguments (loading corpus objects) may have warmed memo caches or other scratch state;
     every run starts from the pristine module state so that it does not depend on what the worker did before
@@ -405,17 +463,25 @@ def run_history(trace, refs, stats=None):
     _cold_start()
     disk = seams.SimDisk(log_events=False)
     wst = _save_warn_state()
+    _set_warning_environment(trace)
     recs = []
     table_reported = False
-    with seams.Installed(disk), sched.Steps() as st:
+    mem = seams.MemPoison(trace.get("mem"))
+    with seams.Installed(disk), mem, sched.Steps(budget=_budget(calls)) as st:
         for k, (call, prep) in enumerate(zip(calls, preps)):
-            rec = exec_call(call, prep, disk, f"h{k}/")
+            try:
+                rec = exec_call(call, prep, disk, f"h{k}/")
+            except sched.StepBudgetExceeded as exc:
+                out.append(_v("no_termination", f"call #{k} {_call_name(call)} did not return within the step budget of the history "
+                              f"({_budget(calls)} steps; its calls take {sum(REF_STEPS.get(c['id'], 0) for c in calls)} alone): {exc}",
+                              {**trace, "calls": calls[: k + 1]}, _call_name(call)))
+                break
             recs.append(rec)
             ref = refs[call["id"]] if call["id"] in refs else None
             if ref is not None and rec != ref:
                 prev = _call_name(calls[k - 1]) if k else "-"
                 out.append(_v("outcome_differs", f"call #{k} {_call_name(call)} gave {rec} but alone in a pristine process {ref} "
-                              f"(after {k} earlier calls, last {prev})", {**trace, "calls": calls[: k + 1]}, _call_name(call)))
+                              f"(after {k} earlier calls, last {prev}{_memnote(trace)})", {**trace, "calls": calls[: k + 1]}, _call_name(call)))
             if not table_reported and _GUARD.changed():
                 ch = _GUARD.changed(tables_only=True)
                 if ch:
@@ -431,6 +497,7 @@ def run_history(trace, refs, stats=None):
     _restore_warn_state(wst)
     if stats is not None:
         stats.inc("steps", st.steps)
+        stats.inc("fault.uninitialised_memory_filled", mem.hits if trace.get("mem") else 0)
         for a, b in zip(calls, calls[1:]):
             stats.add("call_pairs", f"{a['id']}>{b['id']}")
     return out, recs, st.steps
@@ -454,29 +521,35 @@ def run_threads(trace, refs, rng=None, stats=None):
     def make(ci):
         def body():
             for k, (call, prep) in enumerate(zip(clients[ci], preps[ci])):
-                active[ci] = call["id"]
+                active[ci] = _call_name(call)
                 results[ci][k] = exec_call(call, prep, disk, f"t{ci}_{k}/")
                 active[ci] = None
             return True
         return body
 
     wst = _save_warn_state()
+    _set_warning_environment(trace)
+    budget = _budget([c for cl in clients for c in cl])
     try:
-        with seams.Installed(disk), sched.Steps(sched=baton) as st:
+        with seams.Installed(disk), seams.MemPoison(trace.get("mem")) as mem, sched.Steps(budget=budget, sched=baton) as st:
             done = baton.run([make(i) for i in range(len(clients))])
     except sched.SchedulerStall as exc:
         _restore_warn_state(wst)
         return [_v("stall_under_interleaving", str(exc), trace, "stall")], results, baton, 0
     warn_left = _restore_warn_state(wst)
     for c in done:
-        if c.error is not None:
+        if isinstance(c.error, sched.StepBudgetExceeded):
+            out.append(_v("no_termination_under_interleaving", f"client {c.idx} was still inside {active.get(c.idx)} when the run had taken {budget} steps "
+                          f"(its calls take {sum(REF_STEPS.get(x['id'], 0) for cl in clients for x in cl)} steps alone): {c.error}"
+                          f" [warning filter of the application: {trace.get('wfilter') or 'ignore'}]", trace, "budget"))
+        elif c.error is not None:
             out.append(_v("client_died", f"client {c.idx} died with {type(c.error).__name__}: {c.error}", trace, type(c.error).__name__))
     for ci, cl in enumerate(clients):
         for k, call in enumerate(cl):
             rec = results[ci][k]
             ref = refs.get(call["id"])
             if rec is not None and ref is not None and rec != ref:
-                out.append(_v("outcome_differs", f"client {ci} call #{k} {_call_name(call)} gave {rec} under interleaving but alone {ref}",
+                out.append(_v("outcome_differs", f"client {ci} call #{k} {_call_name(call)} gave {rec} under interleaving but alone {ref}{_memnote(trace)}",
                               trace, _call_name(call)))
     ch = _GUARD.changed(tables_only=True) if _GUARD.changed() else []
     if ch:
@@ -490,6 +563,7 @@ def run_threads(trace, refs, rng=None, stats=None):
     inside = sum(1 for pt, frm, to, site in baton.switches if pt > 0)
     if stats is not None:
         stats.inc("steps", st.steps)
+        stats.inc("fault.uninitialised_memory_filled", mem.hits if trace.get("mem") else 0)
         stats.inc("probe.switches_inside_api_calls", inside)
         if warn_left:
             stats.inc("probe.warnings_state_left_modified")
@@ -601,6 +675,17 @@ def plan(tier, seed, args):
         for pol in (["gstore", 0.002, 1.0], ["newline", 0.002, 0.3]):
             tasks.append({"run": run, "seed": seed, "tier": tier, "pair": [a, b], "policy": pol})
             run += 1
+    # Calls that emit warnings go through warnings.catch_warnings in the API wrappers (process-global state that is
+    # saved and restored per call): pairs of them are interleaved with pre-emption right after that state is touched.
+    wids = sorted(WARNERS)
+    wpairs = [(a, b) for a in wids for b in wids]
+    cap = 90 if tier == "quick" else 3000
+    if len(wpairs) > cap:
+        wpairs = common.rng_for(seed, ID, "wpairs").sample(wpairs, cap)
+    for a, b in wpairs:
+        for pol in (["gstore", 0.002, 0.5], ["gstore", 0.01, 0.25]):
+            tasks.append({"run": run, "seed": seed, "tier": tier, "pair": [a, b], "policy": pol, "wfilter": "always"})
+            run += 1
     return tasks
 
 
@@ -653,9 +738,13 @@ def run_task(task):
         extra = [[copy.deepcopy(POOL[rng.choice(task["pair"])])]] if rng.random() < 0.3 else []
         trace = {"mode": "threads", "clients": [[copy.deepcopy(POOL[a])], [copy.deepcopy(POOL[b])]] + extra,
                  "policy": task["policy"], "schedule": None, "horizon": 8000}
-        stats.inc("probe.targeted_stateful_pair_runs")
+        stats.inc("probe.targeted_warning_pair_runs" if task.get("wfilter") else "probe.targeted_stateful_pair_runs")
     else:
         trace = gen_trace(rng)
+    # content of uninitialised memory in this run (own PRNG stream; the pristine references see zeros)
+    erng = common.rng_for(task["seed"], ID, task["run"], "mem")
+    trace["mem"] = erng.choice([0, 1, 1, 2, 3])
+    trace["wfilter"] = task.get("wfilter") or erng.choice(["ignore", "always", "always"])
     if trace["mode"] == "history":
         viols, recs, steps = run_history(trace, REFS, stats)
         stats.inc("outcome.history_runs")
@@ -689,6 +778,8 @@ def run_task(task):
 
 def shrink(trace, still_fails):
     t = copy.deepcopy(trace)
+    if t.get("mem") and still_fails({**t, "mem": 0}):
+        t["mem"] = 0  # the violation does not need a particular content of uninitialised memory
     if t["mode"] == "history":
         calls = t["calls"]
         if len(calls) > 1:
@@ -714,5 +805,6 @@ def coverage_extra(stats, tier):
         "distinct_interleavings": stats.distinct("schedules"),
         "distinct_call_pairs_in_histories": stats.distinct("call_pairs"),
         "simulated_time": "logical steps (LINE events inside iodata) = pre-emption points",
-        "fault_kinds_configured": ["context switch at iodata line", "context switch at seam call (open/readline/raw write/close)"],
+        "fault_kinds_configured": ["context switch at iodata line", "context switch at seam call (open/readline/raw write/close)",
+                                   "uninitialised memory content (np.empty / np.empty_like called from iodata return a seeded fill pattern)"],
     }
